@@ -457,6 +457,12 @@ impl VerifManager {
         self.shared.lock().fail_next_accept_call = true;
     }
 
+    /// Disarms `fail_next_accept_call` when the accept call it was meant for never came (the manager rejected the
+    /// connection). Returns whether it was still armed.
+    pub fn clear_fail_next_accept_call(&mut self) -> bool {
+        std::mem::take(&mut self.shared.lock().fail_next_accept_call)
+    }
+
     /// Polls `TransportManager::next()` until it is pending; returns what it reported.
     pub fn poll(&mut self) -> Vec<MgrEvent> {
         let mut out = Vec::new();
